@@ -62,7 +62,7 @@ class LayerSim(Sim):
     MAX_EVENTS = 30
     PROBES = ["bn_momentum_none", "bn_no_affine", "bn_no_tracking", "bn_eval_nontrivial_stats", "bn_3d_input", "bn_4d_input", "bn_2d_input",
               "bn_train_after_eval", "bn_eval_repeat", "bn_f64", "dropout_p0", "dropout_p1", "dropout_train", "dropout_eval", "dropout_stub_hit",
-              "dropout_backward_same_mask", "dropout_two_pending_outputs_same_shape", "dropout_independence", "mode_by_propagation", "fault_in_bn_training_forward", "fault_in_bn_eval_forward",
+              "dropout_backward_same_mask", "dropout_two_pending_outputs_same_shape", "dropout_huge_sample", "dropout_independence", "mode_by_propagation", "fault_in_bn_training_forward", "fault_in_bn_eval_forward",
               "stats_overwritten", "bn_momentum_1"]
     RULE = ("one run = 1-3 layers (BatchNorm1d/2d, Dropout; all constructor options) with a seeded history of mode switches (direct or by "
             "propagation), forwards, backwards, buffer overwrites and faults; distinct = layer configurations x mode/forward/backward sequence; "
@@ -89,7 +89,7 @@ class LayerSim(Sim):
             kind = rng.choice(["bn1d", "bn1d", "bn2d", "dropout", "dropout"])
             lid = len(st.L)
             if kind == "dropout":
-                cfg = {"p": rng.choice([0.0, 1.0, 0.5, 0.3, 0.1, 0.8, round(rng.uniform(0.05, 0.95), 3)])}
+                cfg = {"p": rng.choice([0.0, 1.0, 0.5, 0.3, 0.1, 0.8, 0.001, 0.999, 0.0015, round(rng.uniform(0.05, 0.95), 3)])}
             else:
                 cfg = {"C": rng.randint(1, 4), "eps": rng.choice([1e-5, 1e-3]), "momentum": rng.choice([0.1, 0.1, None, 0.5, 1.0, round(rng.uniform(0.01, 0.99), 3)]),
                        "affine": rng.random() < 0.7, "track": rng.random() < 0.8, "f64": rng.random() < 0.4}
@@ -122,6 +122,10 @@ class LayerSim(Sim):
             which = rng.randrange(len(st.last[lid]))
             x, out = st.last[lid][which]
             return {"k": "dropout_backward", "lid": lid, "which": which, "g": enc(small_values(rng, out.data.shape, np.float64, -2, 2, avoid_zero=True))}
+        if rng.random() < 0.02:
+            # rarely a HUGE sample: a drop probability that is off by a fraction of a percent (or never / always drops for extreme p)
+            # only shows in millions of draws
+            return {"k": "forward", "lid": lid, "huge": [2000, 2000], "stub": False, "repeat": False, "rg": False}
         big = rng.random() < 0.5
         shape = (rng.randint(3, 5), rng.randint(96, 128)) if big else rng.choice([(4,), (2, 5), (2, 3, 4)])
         x = small_values(rng, shape, np.float64 if rng.random() < 0.5 else np.float32, -3, 3, avoid_zero=True)
@@ -305,6 +309,8 @@ class LayerSim(Sim):
     def _dropout_forward(self, st, ev, L):
         SG = st.SG
         obj, p = L["obj"], L["cfg"]["p"]
+        if ev.get("huge"):
+            return self._dropout_huge(st, ev, L)
         x = dec(ev["x"])
         xt = SG.Tensor(x.copy(), requires_grad=bool(ev.get("rg")))
         training = L["mode"]
@@ -375,6 +381,26 @@ class LayerSim(Sim):
         del st.last[ev["lid"]][:-3]
         if len(st.last[ev["lid"]]) >= 2 and st.last[ev["lid"]][-2][1].data.shape == out.data.shape:
             st.probes["dropout_two_pending_outputs_same_shape"] += 1
+
+    def _dropout_huge(self, st, ev, L):
+        SG = st.SG
+        obj, p = L["obj"], L["cfg"]["p"]
+        if not L["mode"]:
+            st.skipped += 1
+            return
+        n = int(np.prod(ev["huge"]))
+        x = SG.Tensor(np.ones(ev["huge"], dtype=np.float32))
+        try:
+            with quiet():
+                out = obj(x)
+        except Exception as e:
+            st.fail("C13.forward_raises", f"Dropout(p={p}) forward on {ev['huge']} raised {type(e).__name__}: {e}")
+        st.probes["dropout_huge_sample"] += 1
+        k = int((np.asarray(out.data) == 0).sum())
+        sigma = (n * p * (1 - p)) ** 0.5
+        # 7.5 sigma (two-sided tail 6e-14) plus one count of slack; p = 0 and p = 1 must be exact
+        if abs(k - n * p) > 7.5 * sigma + 1:
+            st.fail("C13.dropout_probability", f"Dropout(p={p}) zeroed {k} of {n} elements: expected {n * p:.0f} +- {sigma:.0f} (7.5 sigma bound)", p=p)
 
     def _ev_dropout_backward(self, st, ev):
         SG = st.SG
